@@ -1,6 +1,9 @@
-(* C07 — property theorems only.  Proofs live in Proofs/RegexProofs.v, Proofs/PatternProofs.v. *)
+(* C07 — property theorems only.  Proofs live in Proofs/RegexProofs.v, Proofs/PatternProofs.v,
+   Proofs/PatternXProofs.v (the extended rule language, second half of this file). *)
 From Coq Require Import List String Ascii Bool Arith.
+From Coq Require Import Lia.
 From Annet Require Import Base.Str Model.Pattern Spec.P_C07 Proofs.RegexProofs Proofs.PatternProofs.
+From Annet Require Import Model.PatternX Spec.P_C07X Proofs.PatternXProofs.
 Import ListNotations.
 Open Scope string_scope.
 
@@ -210,3 +213,185 @@ Example C07_ex_regex_src :
   option_map regex_src (parse_pat "interface * mtu */(a|b)\d+/") =
   Some "^interface\s+([^\s]+)\s+mtu\s+((?:a|b)\d+)(?:\s|$)".
 Proof. vm_compute. reflexivity. Qed.
+
+(* ============================================================================== *)
+(* The extended rule language (Model/PatternX.v): a rule word may also be a one-word
+   regular expression that binds nothing — `(ftp|FTP)`, `(?:permit|deny)`, `vlans?`,
+   `[11|12]` (XLitRe) or `~/re/` (XTildeRe).  The plain language above is its
+   sub-language without such words (C07X_conservative), so every statement below also
+   speaks about plain patterns.                                                    *)
+
+(* On rows where the two peculiarities of compile_row_regexp do not show (quirk_free: the
+   row has a `*` or no word that is one plain capturing group; the row has no `~/re/` or
+   ends in `*`), the model of compile_row_regexp matches a row and extracts `key` exactly
+   when the row's words start with words matching the tokens one to one at word
+   boundaries, and key = the words bound by `*`, `*/re/` and the trailing `~` only: a
+   regex word contributes nothing to the key. *)
+Theorem C07X_match_iff :
+  forall (p : xpat) (ic : bool) (row : string) (key : list string),
+    quirk_free p = true ->
+    (xpmatch p ic row = Some key <-> p <> [] /\ xmatches_spec ic p (words row) key).
+Proof. exact xpmatch_iff. Qed.
+Print Assumptions C07X_match_iff.
+
+(* the boolean checker used on implementation outputs decides the relation, for every
+   pattern of the extended language (no guard) *)
+Theorem C07X_spec_checker :
+  forall p ic row key,
+    xref_match p ic row = Some key <-> p <> [] /\ xmatches_spec ic p (words row) key.
+Proof. exact xref_match_iff. Qed.
+Print Assumptions C07X_spec_checker.
+
+Theorem C07X_key_unique :
+  forall ic p ws k1 k2, xmatches_spec ic p ws k1 -> xmatches_spec ic p ws k2 -> k1 = k2.
+Proof. exact xmatches_spec_functional. Qed.
+Print Assumptions C07X_key_unique.
+
+(* one key entry per placeholder — and, in a row without `*`, one more per word that is a
+   plain capturing group (the first peculiarity, stated exactly) *)
+Theorem C07X_key_length :
+  forall p ic row key, xpmatch p ic row = Some key ->
+    List.length key = xnholes p + (if has_star p then 0 else xncaps p).
+Proof. exact xpmatch_key_length. Qed.
+Print Assumptions C07X_key_length.
+
+Theorem C07X_key_length_placeholders :
+  forall p ic row key, has_star p = true -> xpmatch p ic row = Some key -> List.length key = xnholes p.
+Proof. intros p ic row key H M. apply xpmatch_key_length in M. rewrite H in M. lia. Qed.
+Print Assumptions C07X_key_length_placeholders.
+
+(* the plain language is the sub-language without regex words: same parse, same matcher,
+   same specification (what Model/Pipeline.v, Acl.v, Implicit.v ... call is unchanged) *)
+Theorem C07X_conservative :
+  forall rule p, rule_pat rule = Some p ->
+    xrule_pat rule = Some (embed p)
+    /\ (forall ic row, xrule_match rule ic row = rule_match rule ic row)
+    /\ (forall ic ws key, matches_spec ic p ws key <-> xmatches_spec ic (embed p) ws key).
+Proof.
+  intros rule p H. split; [apply xrule_pat_conservative; exact H|]. split.
+  - intros ic row. eapply xrule_match_conservative; eauto.
+  - intros. apply matches_spec_embed.
+Qed.
+Print Assumptions C07X_conservative.
+
+(* what "matching without a trailing word boundary" means for a regex word *)
+Theorem C07X_prefix_lang :
+  forall ic r x, sre_iprefix ic r x = true <->
+    exists u v, list_ascii_of_string x = (u ++ v)%list /\ sre_lang ic r u.
+Proof. exact sre_iprefix_lang. Qed.
+Print Assumptions C07X_prefix_lang.
+
+(* _make_reverse(rule, prefix).format( *key ): the negation word followed by the rule's
+   words with the key substituted for the placeholders; a regex word keeps its source text,
+   a `~/re/` word is dropped; IndexError (None) exactly when the key is too short *)
+Theorem C07X_reverse :
+  forall p prefix key, wf_xpat p = true -> plain_word prefix = true ->
+    lead_ok (reverse_xpat p prefix) = true ->
+    format_template_opt (make_reverse (print_xpat p) prefix) key = xref_reverse p prefix key.
+Proof. exact make_reverse_xformat. Qed.
+Print Assumptions C07X_reverse.
+
+Theorem C07X_reverse_template :
+  forall p prefix, wf_xpat p = true -> plain_word prefix = true ->
+    lead_ok (reverse_xpat p prefix) = true ->
+    make_reverse (print_xpat p) prefix = join_with " " (somes (map xtmpl_word (reverse_xpat p prefix))).
+Proof. exact make_reverse_xtemplate. Qed.
+Print Assumptions C07X_reverse_template.
+
+Theorem C07X_reverse_row :
+  forall p prefix, wf_xpat p = true -> plain_word prefix = true ->
+    reverse_row (print_xpat p) prefix = print_xpat (reverse_xpat p prefix).
+Proof. exact reverse_row_xprint. Qed.
+Print Assumptions C07X_reverse_row.
+
+Theorem C07X_double_neg_pat :
+  forall p prefix, p <> [] ->
+    (forall p', p <> XLit prefix :: XLit prefix :: p' \/ p' = []) ->
+    reverse_xpat (reverse_xpat p prefix) prefix = p.
+Proof. exact reverse_xpat_involutive. Qed.
+Print Assumptions C07X_double_neg_pat.
+
+(* the rule-text parser and the printer are inverse on the extended language *)
+Theorem C07X_parse_print :
+  forall p, wf_xpat p = true -> parse_xpat (print_xpat p) = Some p.
+Proof. exact parse_xpat_print. Qed.
+Print Assumptions C07X_parse_print.
+
+Theorem C07X_print_parse :
+  forall s p, parse_xpat s = Some p -> wf_xpat p = true /\ print_xpat p = s.
+Proof. exact parse_xpat_sound. Qed.
+Print Assumptions C07X_print_parse.
+
+(* the model satisfies the property predicate for every rule row of the extended language
+   written without the inline flag on which the two peculiarities do not show *)
+Theorem C07X_holds :
+  forall x, wf_C07X x = true -> rule_has_ic (ci_rule x) = false -> qf_C07X x = true ->
+    P_C07X x (model_C07X x) = true.
+Proof. exact P_C07X_model. Qed.
+Print Assumptions C07X_holds.
+
+(* ... and both guards are needed (known findings C07/ext/..., replayed on the real code):
+   a row without `*` keeps its plain groups capturing, so the key gains a word *)
+Theorem C07X_bare_group_refuted :
+  exists x, wf_C07X x = true /\ rule_has_ic (ci_rule x) = false /\ P_C07X x (model_C07X x) = false.
+Proof.
+  exists (C07In "oa-options (booster|preamp|amp)" "delete" false [] ["oa-options booster"]).
+  repeat split; vm_compute; reflexivity.
+Qed.
+Print Assumptions C07X_bare_group_refuted.
+
+(* a row with `~/re/` gets no trailing word boundary *)
+Theorem C07X_no_boundary_refuted :
+  exists x, wf_C07X x = true /\ rule_has_ic (ci_rule x) = false /\ P_C07X x (model_C07X x) = false.
+Proof.
+  exists (C07In "*/syslog-level/ ~/(warn|info)/" "no" false ["K"] ["syslog-level warning"]).
+  repeat split; vm_compute; reflexivity.
+Qed.
+Print Assumptions C07X_no_boundary_refuted.
+
+(* the rows of the correspondence run are built from words of the regex words' languages *)
+Theorem C07X_samples_sound :
+  forall r s, In s (sre_samples r) -> sre_imatch false r s = true.
+Proof. exact sre_samples_sound. Qed.
+Print Assumptions C07X_samples_sound.
+
+(* non-vacuity *)
+Example C07X_ex_parse :
+  parse_xpat "route-map * (?:permit|deny) *" =
+    Some [XLit "route-map"; XStar;
+          XLitRe (SGrp false (SAlt (SCat (SChr "p") (SCat (SChr "e") (SCat (SChr "r") (SCat (SChr "m") (SCat (SChr "i") (SChr "t"))))))
+                                   (SCat (SChr "d") (SCat (SChr "e") (SCat (SChr "n") (SChr "y")))))); XStar]
+  /\ option_map quirk_free (parse_xpat "route-map * (?:permit|deny) *") = Some true
+  /\ option_map quirk_free (parse_xpat "(ftp|FTP) *") = Some true
+  /\ option_map quirk_free (parse_xpat "*/syslog-level/ ~/(emergency|alert)/ *") = Some true
+  /\ option_map quirk_free (parse_xpat "vrrp vrid [11|12]") = Some true
+  /\ option_map quirk_free (parse_xpat "qos (wfq|drr)") = Some false.
+Proof. vm_compute. repeat split. Qed.
+
+Example C07X_ex_match :
+  xrule_match "(ftp|FTP) *" false "ftp server enable" = Some ["server"]
+  /\ xrule_match "(ftp|FTP) *" false "FTP acl 2000" = Some ["acl"]
+  /\ xrule_match "(ftp|FTP) *" false "sftp server" = None
+  /\ xrule_match "*/syslog-level/ ~/(emergency|alert|warn)/ *" false "syslog-level warn system" = Some ["syslog-level"; "system"]
+  /\ xrule_match "*/syslog-level/ ~/(emergency|alert|warn)/ *" false "syslog-level warning system" = None
+  /\ xrule_match "route-policy * (?:permit|deny) node *" false "route-policy P permit node 10" = Some ["P"; "10"]
+  /\ xrule_match "vrrp vrid [11|12] virtual-ip" false "vrrp vrid 2 virtual-ip 10.0.0.1" = Some []
+  /\ xrule_match "vrrp vrid [11|12] virtual-ip" false "vrrp vrid 12 virtual-ip" = None.
+Proof. vm_compute. repeat split. Qed.
+
+Example C07X_ex_reverse :
+  make_reverse "route-map * (?:permit|deny) *" "no" = "no route-map {} (?:permit|deny) {}"
+  /\ format_template_opt (make_reverse "*/syslog-level/ ~/(emergency|alert|warn)/ *" "no") ["syslog-level"; "system"]
+     = Some "no syslog-level system"
+  /\ option_map (fun p => xref_reverse p "no" ["syslog-level"; "system"])
+       (parse_xpat "*/syslog-level/ ~/(emergency|alert|warn)/ *") = Some (Some "no syslog-level system").
+Proof. vm_compute. repeat split. Qed.
+
+Example C07X_ex_outside :
+  parse_xpat "ipv[46]-family|link-state-family unicast" = None      (* alternation not closed in a group *)
+  /\ parse_xpat "ieee-802.1 *" = None                                (* `.` may match a blank *)
+  /\ parse_xpat "undo (ftp|FTP) (server source|server-source)" = None   (* a group across two words *)
+  /\ parse_xpat "vrrp6 vrid [11|12] virtual-ip FE80*" = None         (* `*` inside a word *)
+  /\ parse_xpat "a ~/x/ b/c" = None                                  (* `/` after `~/re/` *)
+  /\ parse_xpat "a ~/b/ ~" = None.
+Proof. vm_compute. repeat split. Qed.
